@@ -130,7 +130,7 @@ func (g *gen) cond() string {
 	case 3:
 		return fmt.Sprintf("%s > %d && %s", g.intAtom(), g.c.Intn(4), "maybe()")
 	case 4:
-		return fmt.Sprintf("S ~= /%s/", g.pick("a", "^h", "b$", "l+"))
+		return fmt.Sprintf("S ~= /%s/%s", g.pick("a", "^h", "b$", "l+"), g.pick("", "", "i", "m", "im", "mi", "imi"))
 	case 5:
 		return fmt.Sprintf("%s in g2", g.intAtom())
 	default:
